@@ -5,6 +5,7 @@ import (
 	"os"
 	"sync"
 	"sync/atomic"
+	"unsafe"
 )
 
 // Schedule strategies.
@@ -146,8 +147,37 @@ func enabled(t int32) bool {
 	case kWGWait:
 		g := wgSlotFor(ts.obj, false)
 		return g == nil || g.count <= 0
+	case kChanSend:
+		// a buffered channel: room in the buffer (a send on a closed channel panics at once)
+		n, c := chanState(ts.obj)
+		return n < c || chanClosed(ts.obj)
+	case kChanRecv:
+		n, _ := chanState(ts.obj)
+		return n > 0 || chanClosed(ts.obj)
 	}
 	return true
+}
+
+// chanState reads the element count and the buffer size of the channel a parked task is about
+// to use (the first two words of the runtime's channel header; the parked task keeps the channel
+// alive, and no other task is running while a decision is taken).
+//
+//go:nocheckptr
+func chanState(obj uint64) (n, c uint) {
+	if obj == 0 {
+		return 0, 0 // nil channel: blocks for ever
+	}
+	p := (*[2]uint)(unsafe.Pointer(uintptr(obj)))
+	return p[0], p[1]
+}
+
+func chanClosed(obj uint64) bool {
+	for i := uint32(0); i < w.nclosed; i++ {
+		if w.closed[i].addr == obj {
+			return true
+		}
+	}
+	return false
 }
 
 // release-type effects are applied when the request is posted, acquire-type when it is granted.
@@ -164,6 +194,24 @@ func applyPost(t int32, kind uint32, obj uint64, arg int64) {
 		}
 	case kWGAdd:
 		wgSlotFor(obj, true).count += arg
+	case kChanClose:
+		if !chanClosed(obj) {
+			if w.nclosed == maxClosed {
+				w.overflow = 1
+				return
+			}
+			w.closed[w.nclosed].addr = obj
+			w.nclosed++
+		}
+	case kChanMake:
+		// a new channel at an address an earlier, closed channel of this run had
+		for i := uint32(0); i < w.nclosed; i++ {
+			if w.closed[i].addr == obj {
+				w.nclosed--
+				w.closed[i] = w.closed[w.nclosed]
+				break
+			}
+		}
 	}
 }
 
@@ -439,9 +487,20 @@ func Go(fn func(), site string) {
 	}
 	id := int32(w.ntasks)
 	if id >= MaxTasks {
-		panic("simrt: too many tasks")
+		// the slot of a task that has finished is used again (its goroutine has gone)
+		id = -1
+		for t := int32(1); t < MaxTasks; t++ {
+			if atomic.LoadUint32(&w.task[t].state) == stFinished {
+				id = t
+				break
+			}
+		}
+		if id < 0 {
+			panic("simrt: too many tasks")
+		}
+	} else {
+		w.ntasks++
 	}
-	w.ntasks++
 	spawn(id, fn)
 	yield(kGo, 0, siteHash(site), 0)
 }
@@ -467,6 +526,7 @@ func Run(cfg Config, fns ...func()) Report {
 	for i := range w.wgs {
 		w.wgs[i] = wgSlot{}
 	}
+	w.nclosed = 0
 	atomic.AddUint32(&w.gen, 1)
 	taskWG = &sync.WaitGroup{}
 	w.rng = cfg.Seed
